@@ -59,11 +59,13 @@ Fixpoint assoc_append {A} (m : list (N * list A)) (k : N) (v : list A) : list (N
 Definition merge_tables {A} (ms : list (list (N * list A))) : list (N * list A) :=
   fold_left (fun acc m => fold_left (fun acc '(k, v) => assoc_append acc k v) m acc) ms [].
 
-Definition import_peer (lt : ctable) (cm : cmap) (exclude : list N) (sources : list peer_file)
+(* each source comes with the criteria-map re-keyed to that source's own criteria
+   indices (the map is keyed by peer criterion NAME in config.toml) *)
+Definition import_peer (lt : ctable) (exclude : list N) (sources : list (cmap * peer_file))
   : list (N * list audit) * list (N * list wildcard) :=
   match sources with
-  | [pf] => import_source lt cm exclude pf
-  | _ => let rs := map (import_source lt cm exclude) sources in
+  | [(cm, pf)] => import_source lt cm exclude pf
+  | _ => let rs := map (fun '(cm, pf) => import_source lt cm exclude pf) sources in
          (merge_tables (map fst rs), merge_tables (map snd rs))
   end.
 
@@ -147,9 +149,8 @@ Definition live_unpublished (lock : list unpublished) (v : N) (published : list 
 
 (* ---- go_online, assembled ---- *)
 Record import_cfg := {
-  ic_cmap : cmap;
   ic_exclude : list N;
-  ic_sources : list peer_file;                 (* one per URL, in order *)
+  ic_sources : list (cmap * peer_file);        (* one per URL, in order *)
   ic_lock_audits : list (N * list audit);      (* imports.lock audits of this import *)
   ic_lock_wild : list (N * list wildcard)
 }.
@@ -176,10 +177,12 @@ Definition has_key {A} (m : list (N * list A)) (k : N) : bool := existsb (fun '(
 Definition go_online (lt : ctable) (imports : list import_cfg) (crates : list crate_info) : live :=
   let live_imports :=
     map (fun ic => freshen_peer (ic_lock_audits ic) (ic_lock_wild ic)
-                     (import_peer lt (ic_cmap ic) (ic_exclude ic) (ic_sources ic))) imports in
+                     (import_peer lt (ic_exclude ic) (ic_sources ic))) imports in
   let relevant (c : crate_info) : bool :=
-    ci_local_wildcard c || existsb (fun li => has_key (snd li) (ci_name c)) live_imports
-    || (match ci_lock_publishers c with Some _ => true | None => false end) || ci_trusted c in
+    (* wildcard_audits_packages(&audits, &live_imports): local wildcard audits, live imported
+       wildcard audits, local trusted entries; the `publisher` table it also consults is the
+       (still empty) live one, so cached publisher records alone do not make a crate relevant *)
+    ci_local_wildcard c || existsb (fun li => has_key (snd li) (ci_name c)) live_imports || ci_trusted c in
   {| lv_imports := live_imports;
      lv_publishers :=
        flat_map (fun c => if relevant c && ci_third_party_in_graph c
